@@ -108,6 +108,7 @@ type FuncSpec struct {
 	Requires    []Clause
 	Ensures     []Clause
 	ExitAssert  []Clause // asserted at every return with the function's locals in scope; not exported to callers
+	Hints       []Hint   // proof cuts: proved, then assumed, before/after the k-th call of a callee in the body
 	Modifies    []string // heap key patterns "Type.field", "*"
 	HasModifies bool
 	Ghost       []GhostAssign
@@ -117,6 +118,16 @@ type FuncSpec struct {
 	Opaque      bool // never inline even without contract
 	Lemma       bool
 	File        string
+}
+
+// Hint is an intermediate assertion (a cut) inside a function body: `hint before (*T).M#2 label: expr`
+// is proved as an obligation of its own in the state right before the second call of (*T).M (in SSA
+// order) and assumed afterwards.  It adds no assumption: what is assumed has just been proved.
+type Hint struct {
+	After  bool
+	Callee string
+	K      int
+	C      Clause
 }
 
 type LoopSpec struct {
@@ -523,7 +534,7 @@ func (p *parser) parsePostfix(x Expr) Expr {
 var stmtKeywords = map[string]bool{
 	"func": true, "iface": true, "loop": true, "pure": true, "ghost": true, "lemma": true,
 	"requires": true, "ensures": true, "modifies": true, "invariant": true, "decreases": true,
-	"exitassert": true, "transparent": true, "trusted": true, "opaque": true, "axiom": true, "params": true,
+	"exitassert": true, "hint": true, "transparent": true, "trusted": true, "opaque": true, "axiom": true, "params": true,
 }
 
 // ParseSpec parses the contract text of one file.
@@ -627,6 +638,22 @@ func ParseSpec(pkg, file, text string) (sf *SpecFile, err error) {
 					panic("exitassert outside func")
 				}
 				curF.ExitAssert = append(curF.ExitAssert, clause())
+			case "hint":
+				if curF == nil {
+					panic("hint outside func")
+				}
+				fs := strings.Fields(rest)
+				if len(fs) < 3 || (fs[0] != "before" && fs[0] != "after") {
+					panic("hint needs 'before|after callee#k label: expr'")
+				}
+				h := Hint{After: fs[0] == "after", Callee: fs[1], K: 1}
+				if i := strings.LastIndex(fs[1], "#"); i >= 0 {
+					h.Callee = fs[1][:i]
+					fmt.Sscanf(fs[1][i+1:], "%d", &h.K)
+				}
+				rest = strings.TrimSpace(strings.TrimPrefix(strings.TrimSpace(strings.TrimPrefix(rest, fs[0])), fs[1]))
+				h.C = clause()
+				curF.Hints = append(curF.Hints, h)
 			case "invariant":
 				if curL == nil {
 					panic("invariant outside loop")
